@@ -253,7 +253,7 @@ func init() {
 		Rule:        "Harnesses in harness/websocket/c14.go against a reference RFC 6455 receiver written in the harness: one frame from an arbitrary valid reader state with the whole header symbolic; sequences of frames of forked kinds with symbolic payloads; cut streams.",
 		Assumptions: append([]string{"a one-byte close payload is not in the property's list and is not generated", "reader state invariant for the one-step harness: readLength <= readLimit when a limit is set, readLength = 0 when no message is in progress, both below 2^40"}, wsAssume...),
 		Harnesses: []harnessSpec{
-			{Pkg: "websocket", Func: "HarnessC14_Step", TimeFixed: true, Labels: []string{"step-close", "step-close-bad", "step-data", "step-limit", "step-ping", "step-pong", "step-violation"},
+			{Pkg: "websocket", Func: "HarnessC14_Step", TimeFixed: true, Labels: []string{"step-close", "step-close-bad", "step-data", "step-limit", "step-ping", "step-pong", "step-violation", "step-topbit"},
 				Bound: "both roles; 24 symbolic input bytes (2 header bytes, the 16/64-bit extended length incl. 2^63 and above, mask key, payload); state readFinal/readLength/readLimit symbolic; close frames up to code + 2 reason bytes, ping/pong up to 8 bytes"},
 			{Pkg: "websocket", Func: "HarnessC14_Seq", TimeFixed: true, Labels: []string{"seq-close", "seq-eof", "seq-limit", "seq-violation"},
 				Bound:  "both roles; sequences of 2 frames over 16 frame kinds (8 conformant incl. fragments/ping/pong/close, 8 violating: RSV, reserved opcode, fragmented or oversized control, wrong mask, bad close code, non-UTF-8 reason, top-bit length); first frame in 7/16/64-bit length form with 0/1/3 symbolic payload bytes; read limit in {none, 2}",
